@@ -325,6 +325,19 @@ void vp_c08_throw(int k, vp_obs& o)
   catch (...) { o.ret = 1; }
   o.y = e->is_saturated() && e->is_satisfied();
 }
+// C13 / C05: a sequenced REQUIRE_DESTRUCTION through the macros, object destroyed in order or too early
+void vp_c13_sequence(bool early, vp_obs& o)
+{
+  trompeloeil::sequence s; vp_M m;
+  auto* obj = new trompeloeil::deathwatched<vp_D>();
+  REQUIRE_CALL(m, g()).IN_SEQUENCE(s);
+  auto r = NAMED_REQUIRE_DESTRUCTION(*obj).IN_SEQUENCE(s);
+  o.x = s.is_completed(); o.extra = 0;
+  if (!early) m.g();
+  delete obj;
+  o.ret = r->is_satisfied();
+  o.y = s.is_completed();
+}
 void vp_build_objects()
 {
   vp_M m; trompeloeil::sequence s;
